@@ -205,7 +205,16 @@ pub fn run(r: &Report, which: &str) {
             pairs: gen::pool_with_edge_space()
                 .into_iter()
                 .map(|d| {
-                    let n = if d.ds.chars().count() + d.de.chars().count() <= 4 { 10 } else { 7 };
+                    // 10 atoms for short delimiters; 7 for the self-overlapping spellings the
+                    // property names; 6 for the other long ones (their alphabets have 15-20 atoms)
+                    let named = ["<!-- <", "/* <", "// --", "aab"].contains(&d.ds) && d.de != ">";
+                    let n = if d.ds.chars().count() + d.de.chars().count() <= 4 {
+                        10
+                    } else if named {
+                        7
+                    } else {
+                        6
+                    };
                     (d, n)
                 })
                 .collect(),
